@@ -11,8 +11,9 @@ D3 point estimate inside: for the mean-type producers and Wald the bounds are ce
    (C06) with c >= 0 whenever q >= 1/2 (zero-location symmetric distribution: contract), so a
    two-sided interval, or a one-sided one at L >= 1/2, contains the centre: sign certificates of
    centre - lo and hi - centre.
-U: nesting in the level (needs monotonicity of the external quantile functions); containment of
-   k/n by the Wilson interval (analytic)."""
+D4 nesting in the level: affine producers by the sign of the coefficient of the critical value; Wilson by
+   sign certificates (finite bounds move outwards with z in both sign regions); Wilson contains k/n for z >= 0.
+U: monotonicity of the external quantile functions in the level (contract); quantile-rank containment."""
 from fractions import Fraction
 
 from .. import terms as T
@@ -210,6 +211,11 @@ def run_cfg(chk, facts, cfg):
                     if kind in ('two', 'lower') and not nf.term_equal(hi, T.op('add', centre, span)):
                         probs.append('upper bound is not centre + span with the signed span')
                 chk.ob(key, 'E4', '%s(%s): bounds are centre -/+ span with span carrying the sign of z (premise of nesting in the level)' % (method, kname), not probs, '; '.join(probs), method)
+                if method == 'wilson':
+                    # nesting in the level and containment of k/n, decided on the code's own bounds by sign certificates
+                    # (DESIGN §16): outward movement with z in both sign regions; lo <= k/n <= hi for z >= 0
+                    from .C17 import wilson_theorems
+                    wilson_theorems(chk, nf, 'wilson', sfx, 'proportion::ci_wilson', kind, kname, z, lo, hi, pid=PID, clauses=('level', 'contains'))
             except (Unsupported, NotReal) as e:
                 chk.ob(key, 'E4', method, None, 'undecided: %s' % e, method)
     # ---- quantile ranks
@@ -231,7 +237,7 @@ def run_cfg(chk, facts, cfg):
     if cfg == 'default':
         chk.floor('producers', nprod, 8)
     chk.rules.append('E3 kind table; E7 substitution L -> 2L-1 on the code terms; sign certificates for containment of the point estimate')
-    chk.notes.append('nesting in the level: decided for the affine producers modulo the contract "a quantile function is non-decreasing"; for Wilson / quantile ranks only the premise (signed formula) is decided, monotonicity of that formula in z is a cited theorem; Wilson and quantile-rank containment of the point estimate are analytic and not decided')
+    chk.notes.append('nesting in the level: decided for the affine producers modulo the contract "a quantile function is non-decreasing"; Wilson: outward movement with z and containment of k/n are decided by sign certificates; quantile ranks are monotone images (floor, min) of the Wilson bounds; quantile-rank containment of the point estimate is not decided')
 
 
 ASSUMPTIONS = ['floats as reals; admissible inputs; quantile of a zero-location symmetric distribution is >= 0 at q >= 1/2 (contract)']
